@@ -745,7 +745,85 @@ func c19CacheLists(w *core.WorkerCtx) {
 	}
 }
 
+// c19TruncationStorage: the storage form as the node itself produces it. A ledger of 1060 transfers and contracts is
+// truncated by the real routine; every vertex it moved to the storage is read back through ReadVertex and
+// ReadTransactionByHash and must equal, field by field, the vertex that was sealed, and still verify.
+func c19TruncationStorage(w *core.WorkerCtx) {
+	r := w.R
+	rng := core.Rand(w.Seed, "C19trunc", w.Batch)
+	desc := "c19 truncation storage: 1060 vertices, real truncation, every checkpointed vertex read back and compared"
+	world := ledger.NewWorld(rng, r, []string{"C19"}, 0, desc)
+	defer world.Close()
+	if _, err := ledger.Setup(world, ledger.Profile{Nodes: 1, Users: 4, SupplyClass: 0, Delivery: "lockstep"}); err != nil {
+		r.Inconc("setup failed: " + err.Error())
+		return
+	}
+	n := world.Nodes[0]
+	u := world.Users
+	world.Quiet = true
+	for i := 0; i < 1060; i++ {
+		var data []byte
+		amt := spice.Melange{SupplementaryCurrency: uint64(1 + i%9), Currency: uint64(i % 2)}
+		if i%5 == 3 {
+			data = c19Bytes(rng, []int{1, 32, 33, 255}[i%4], 1+i%3)
+		}
+		if i%10 == 7 {
+			amt = spice.Melange{}
+			data = []byte("contract without spice")
+		}
+		t := world.NewTrx(u[0], u[1+i%3].Addr, amt, data)
+		world.Propose(n, &t, "grow")
+	}
+	world.Quiet = false
+	before := world.Observe(n, ledger.OpInfo{Kind: "milestone", OK: true})
+	if err := world.Truncate(n); err != nil {
+		r.Inconc("truncation failed: " + err.Error())
+		return
+	}
+	after := n.Prev
+	ver := wallet.NewVerifier()
+	checked := 0
+	for h := range after.Stored {
+		orig, ok := before.Live[h]
+		if !ok {
+			continue
+		}
+		o := orig.V
+		got, err := n.Book.ReadVertex(context.Background(), h)
+		r.Eval(1)
+		if err != nil {
+			r.Violate("C19", "stored-object-not-readable/truncation->storage->ReadVertex", fmt.Sprintf("vertex %s was checkpointed by the truncation and cannot be read back: %v", ledger.Hex(h), err), nil)
+			continue
+		}
+		if d := vrxDiff(&o, &got); len(d) > 0 {
+			r.Violate("C19", "silently-changed/truncation->storage->ReadVertex/"+fieldOnly(d[0]), fmt.Sprintf("vertex %s checkpointed by the truncation reads back with %v changed", ledger.Hex(h), d), nil)
+		} else if (got.Transaction.VerifyIssuer(ver) == nil) != (o.Transaction.VerifyIssuer(ver) == nil) {
+			r.Violate("C19", "verify-outcome-changed/truncation->storage->ReadVertex", fmt.Sprintf("vertex %s checkpointed by the truncation no longer verifies like the original", ledger.Hex(h)), nil)
+		}
+		trx, err := n.Book.ReadTransactionByHash(context.Background(), o.Transaction.Hash)
+		if err != nil {
+			r.Violate("C19", "stored-object-not-readable/truncation->storage->ReadTransactionByHash", fmt.Sprintf("the transaction of checkpointed vertex %s cannot be read back: %v", ledger.Hex(h), err), nil)
+		} else if d := trxDiff(&o.Transaction, &trx); len(d) > 0 {
+			r.Violate("C19", "silently-changed/truncation->storage->ReadTransactionByHash/"+fieldOnly(d[0]), fmt.Sprintf("the transaction of checkpointed vertex %s reads back with %v changed", ledger.Hex(h), d), nil)
+		}
+		checked++
+	}
+	// the vertices that stayed live were handled by the same routine (it walks them to add up the funds)
+	for h, l := range after.Live {
+		if orig, ok := before.Live[h]; ok {
+			if d := vrxDiff(&orig.V, &l.V); len(d) > 0 {
+				r.Violate("C19", "silently-changed/truncation/live-vertex/"+fieldOnly(d[0]), fmt.Sprintf("live vertex %s has %v changed after the truncation", ledger.Hex(h), d), nil)
+			}
+		}
+	}
+	r.Count("c19_vertices_checkpointed_by_truncation_and_compared", checked)
+	r.Nontriv(fmt.Sprintf("truncation-storage/checked%d", bucketN(checked)))
+}
+
 func c19Worker(w *core.WorkerCtx) {
+	if w.Batch == 3 {
+		c19TruncationStorage(w)
+	}
 	if w.Batch == 1 {
 		c19Lists(w)
 	}
